@@ -7,7 +7,8 @@
      {"op":"read", run, i, n, got, eof [, err]}             one real Read call with an n-byte buffer: the bytes it
                                                             returned and whether it reported io.EOF (err: any
                                                             other error or a recovered panic)
-     {"op":"end", run, calls [, dec] [, dec2]}              end of the object; dec/dec2 = what the real decoder(s)
+     {"op":"end", run, calls [, dec] [, dec2] [, terminated:false [, via, precalls, prebytes]] [, hung, reason]}
+                                                            end of the object; dec/dec2 = what the real decoder(s)
                                                             produced from the bytes: {"st":"ok","v":canonical
                                                             re-description} | {"st":"error"} | {"st":"panic"}
    Each read line is applied to the drain machine with the same Read(step) the model checker uses.  Judged under
@@ -17,6 +18,10 @@
      early-eof      end of stream reported before all bytes were emitted
      stall          a Read into a non-empty buffer returned no bytes and no end of stream
      read-error     Read failed or panicked
+     emission-does-not-terminate   the call bound of the drain was used up without end of stream after the encoder
+                    had left the reference encoding, or a component encoder that the object's own Read drains in
+                    an unbounded loop (Field inside Transaction/Account, NewsArtList inside the article list) did
+                    not report end of stream within its bound (the harness then does not call the composite)
      decode-*       the real decoder failed / panicked / produced something else than the original object
    Accepted without report: end of stream reported together with the last bytes (io.Reader allows both).
    DRIFT (model and code disagree on something the statement does not constrain, or the recording is not what
@@ -108,11 +113,22 @@ DecCheck(e, key, want, tag) ==
                     msg |-> IF Has(e, key \o "msg") THEN e[key \o "msg"] ELSE ""])
 
 EndEv ==
-  LET e == Log[l] IN
+  LET e == Log[l]
+      via == Has(e, "via")                                  \* a component encoder, drained as the composite drains it
+      nonterm == Has(e, "terminated") /\ ~e.terminated      \* the bounded drain ended without end of stream
+  IN
   /\ e.op = "end"
   /\ UNCHANGED <<dvars, reads, short, fedok>>
   /\ bad' = TRUE
-  /\ IF bad THEN TRUE ELSE
+  /\ IF Has(e, "hung") THEN Report("DRIFT", e, "real-call-did-not-return", e.reason)
+     ELSE IF nonterm /\ (bad \/ via) THEN
+       (* Terminates on the recorded run: the encoder (or a component the composite drains in an unbounded loop)
+          was still emitting when the call bound was used up, after it had already left the reference encoding
+          (reported above) or without ever reporting end of stream to a 512-byte reader *)
+       Report("VIOL", e, "emission-does-not-terminate",
+              [via |-> IF via THEN e.via ELSE "drain", calls |-> IF via THEN e.precalls ELSE e.calls,
+               bytes |-> IF via THEN e.prebytes ELSE off, L |-> Len(enc)])
+     ELSE IF bad THEN TRUE ELSE
      /\ (short => Report("DRIFT", e, "short-read", [off |-> off, L |-> Len(enc), calls |-> e.calls]))
      /\ (kind \in EmitKinds /\ ~eof =>
            Report("DRIFT", e, "not-drained-within-bound", [off |-> off, L |-> Len(enc), calls |-> e.calls]))
